@@ -8,6 +8,7 @@ mod api_ev;
 mod span_ev;
 mod entry_ev;
 mod depth_ev;
+mod hist_ev;
 
 use std::collections::HashMap;
 
@@ -65,6 +66,8 @@ fn real_main() {
         "err-events" => span_ev::err_events(&args),
         "entry-events" => entry_ev::entry_events(&args),
         "depth-events" => depth_ev::depth_events(&args),
+        "hist-events" => hist_ev::hist_events(&args),
+        "gen-hist" => hist_ev::gen_hist(&args),
         _ => {
             eprintln!("unknown command {cmd:?}");
             std::process::exit(2);
